@@ -179,3 +179,49 @@ Example C40_comment_example :
   parse_predicate (Some (EConstant (1, 0) (CBool true))) [lit "# Comment!  "; lit "# second"]
   = Ok (TComment (TConst (CBool true)) (lit "Comment!")).
 Proof. reflexivity. Qed.
+
+(* ------------------------------------------------------------------------------------------------- *)
+(* 5. The code itself.  GristGen.Predicate_gen is generated from predicate_formula.py (every TreeConverter.visit_*
+   method, generic_visit, named_constants) by harness/pf2v.py on every run; gen_visit None is TreeConverter().visit.
+   Bridge: on every AST the harness can produce (wf_expr: an operator kept by class name is not a handled one) the
+   generated code returns exactly the serialisation of the model's tree, or the model's SyntaxError, and never
+   another exception.  The main statements, restated about the generated code: *)
+Require Import Grist.Model.PredVisit GristGen.Predicate_gen Grist.Proofs.Predicate_bridge.
+
+Theorem C40_code_bridge : forall e, wf_expr e = true -> gen_visit None e [] = lift_tree [] (convert e).
+Proof. exact gen_convert_bridge. Qed.
+
+Theorem C40_code_unsupported_rejected : forall e,
+  wf_expr e = true -> supported e = false -> exists err, gen_visit None e [] = GFail (GErr err).
+Proof.
+  intros e Hwf Hs. rewrite (gen_convert_bridge e Hwf).
+  destruct (convert e) as [t|err] eqn:E; [|cbn; eauto].
+  pose proof (convert_ok_iff e) as H. rewrite E, Hs in H. discriminate.
+Qed.
+
+Theorem C40_code_supported_json : forall e,
+  wf_expr e = true -> supported e = true -> exists v, gen_visit None e [] = GOk (v, []) /\ json_value v = true.
+Proof.
+  intros e Hwf Hs. rewrite (gen_convert_bridge e Hwf).
+  destruct (convert e) as [t|err] eqn:E.
+  - exists (to_py t). split; [reflexivity|]. unfold supported in Hs. apply andb_true_iff in Hs.
+    exact (convert_plain_json e t (proj2 Hs) E).
+  - pose proof (convert_ok_iff e) as H. rewrite E, Hs in H. discriminate.
+Qed.
+
+Theorem C40_code_faithful : forall (M : PySem) (g : env M) (e : expr),
+  membership_ignores_tuple M -> wf_expr e = true -> in_subset e = true ->
+  exists t, gen_visit None e [] = GOk (to_py t, []) /\ eval_tree M g t = eval_py M g e.
+Proof.
+  intros M g e Hm Hwf Hs. destruct (convert_faithful_lemma M Hm g e Hs) as [t [Ct Et]].
+  exists t. rewrite (gen_convert_bridge e Hwf), Ct. split; [reflexivity | exact Et].
+Qed.
+
+Example C40_code_nonvacuous :
+  wf_expr ex_expr = true /\
+  gen_visit None ex_expr [] = GOk (to_py (TBoolOp BAnd
+      [TCmp OpEq (TAttr (TName (lit "rec")) (lit "office")) (TConst (CStr (lit "Seattle")));
+       TCmp OpIn (TAttr (TName (lit "user")) (lit "email"))
+            (TListN [TConst (CStr (lit "sally@")); TConst (CStr (lit "xie@"))])]), []) /\
+  gen_visit None (EConstant (1, 0) CEllipsis) [] = GFail (GErr (ErrUnsupported (1, 0))).
+Proof. vm_compute. repeat split; reflexivity. Qed.
